@@ -938,7 +938,7 @@ func init() {
 	register("c06", func(args []string) int {
 		f := parseFlags("c06", args)
 		rep := newReport("C06", f)
-		rep.Rule = "queue histories (events, flushes, reads, ACKs, reopen at random op boundaries with a full drain) on the simulated disk; every flush / ACK / implicit flush is bracketed by markers; crash images at I/O boundaries (25 sampled per history in quick, all in thorough) x subsets of the un-synced page chunks are reopened through the real open path + NewStandaloneDelegate + pq.New, the number of pending events must be the one before or after the operation in flight, the drained events must be byte-identical to events [acked, flushed), then the queue is continued (append, flush, drain, ACK, counters); K1: the model reader on the real page chain. Non-trivial: every distinct (history, boundary, subset)."
+		rep.Rule = "queue histories (events, flushes, reads, ACKs, reopen at random op boundaries with a full drain) on the simulated disk; every flush / ACK / implicit flush is bracketed by markers; crash images at I/O boundaries (25 sampled per history in quick, all in thorough) x subsets of the un-synced page chunks are reopened through the real open path + NewStandaloneDelegate + pq.New, the number of pending events must be the one before or after the operation in flight, the drained events must be byte-identical to events [acked, flushed), then the queue is continued (append, flush, drain, ACK, counters); K1: the model reader on the real page chain; plus fill / drain cycles on small bounded files (flushes that fail because the file is full, retries after ACKs): everything accepted is delivered byte-identical. Non-trivial: every distinct (history, boundary, subset)."
 		m, err := model.Start()
 		if err != nil {
 			fmt.Fprintln(os.Stderr, err)
@@ -964,6 +964,15 @@ func init() {
 			if i < 2 {
 				rep.sample(map[string]interface{}{"config": cfg.String(), "ops": trunc(pqOpKinds(ops), 400)})
 			}
+		}
+		// flushed events also survive the file running full: fill / drain cycles on small bounded files (failed
+		// implicit and explicit flushes, retries after ACKs); what was accepted is delivered byte-identical
+		for i, cfg := range []pqengine.Config{
+			{PageSize: 1024, MaxSize: 64 * 1024, WriteBuffer: 0}, {PageSize: 1024, MaxSize: 64 * 1024, WriteBuffer: 4096},
+			{PageSize: 4096, MaxSize: 17 * 4096, WriteBuffer: 0}, {PageSize: 1024, MaxSize: 96 * 1024, WriteBuffer: 2048},
+		} {
+			c12Cycle(rep, cfg, r.Int63(), 5, i%2 == 1, m)
+			rep.count("scenario:fill-drain-cycles-on-a-full-file", 1)
 		}
 		rep.ModelCalls = m.N
 		return rep.finish(f)
